@@ -165,6 +165,10 @@ func (e *Env) encodeRules(l *facts.Level) {
 		er := lf.Ret[1]
 		_, inner, isWrap := sentinelOf(er)
 		okErr := er.Key() == geCall.Key() || (isWrap && inner != nil && inner.Key() == geCall.Key())
+		if !okErr && isNilConst(er) && hasGuard(lf, ir.Bin("==", geCall, nilOf(errorType))) {
+			// nil on a path that saw GetError() == nil: the same value (GetError is a pure query and Encode writes nothing: pure-query)
+			okErr = true
+		}
 		if !okErr {
 			okAll = false
 			c.Fail("encode-error", cons, e.P.Pos(lf.Pos), "the error result is not the own-level GetError(): "+clip(er.Pretty()))
